@@ -2,11 +2,14 @@
    (ideal-real model RInst; kernel-checked PARTS only)
    Property theorems only: full statement, `exact <lemma>`, Print Assumptions.
 
-   NOT PROVED (named premise ProjInverse): that polyhedral_forward and polyhedral_inverse
-   (the IVEA map between a spherical triangle and a planar triangle) are mutually inverse on
-   each of the 10 + 10 face triangles and map the planar triangle ONTO the spherical one; hence
-   also not proved: dodec_inverse (dodec_forward x) = x, and that the image of a face is its
-   pentagon.  Also not proved: the 1e-12 / 1e-11 round-trip tolerances under f64 arithmetic.
+   PROVED LATE IN THE BUILD (C15_polyhedral_roundtrip_main_branch, end of this file): for ANY spherical
+   triangle of unit vectors with positive pairwise dot products and positive orientation, any planar
+   triangle and any point strictly inside the spherical triangle, polyhedral_inverse undoes
+   polyhedral_forward EXACTLY whenever the code's numerical short-cuts do not fire (main branch).
+   STILL NOT PROVED (named premise ProjInverse in the design): the converse direction (forward after
+   inverse), that the planar triangle is mapped ONTO the spherical one, the short-cut branches, the
+   instantiation to the 10 + 10 face triangles of the twelve faces (dodec_inverse (dodec_forward x) = x),
+   and that the image of a face is its pentagon.  Also not proved: the 1e-12 / 1e-11 round-trip tolerances under f64 arithmetic.
    These gaps are covered only by certified interval samples and search, not by theorems.
    Note that over the ideal reals the model is NOT exactly invertible where the code switches to
    small-argument formulas (barycentric coordinate > 1 - 1e-14 returns the corner itself;
@@ -326,6 +329,63 @@ Theorem C15_safe_acos_RInst_spec : forall x, 0 <= x <= 1 ->
     (1 / 1000 <= x -> a = Ratan.acos (1 - 2 * x * x)).
 Proof. exact safe_acos_RInst_spec. Qed.
 Print Assumptions C15_safe_acos_RInst_spec.
+
+(* ---- The IVEA map: inverse after forward is the identity on the main branch (Geo/PolyhedralRoundTrip.v).
+   dt = dot product, tp = triple product; isect a b c v is the point P where the great circle through a and v
+   meets the arc bc; hR = sin(angle(a,v)/2) / sin(angle(a,P)/2); areaR = spherical excess as the code computes
+   it.  The hypotheses below the `let`s say that none of the numerical short-cuts of the code fires
+   (triangle_area: asin branch; slerp: sine-weights branch; safe_acos: acos branch; no barycentric coordinate
+   above 1 - 1e-14); vector_difference needs no such hypothesis (both branches return the same real). ---- *)
+From A5 Require Import Geo.PolyhedralRoundTrip.
+
+Theorem C15_polyhedral_roundtrip_main_branch :
+  forall (a b c v : vecR) (ft : triR), tri_det ft <> 0 ->
+  unitv a -> unitv b -> unitv c -> unitv v ->
+  0 < vdot RInst a b -> 0 < vdot RInst b c -> 0 < vdot RInst c a ->
+  0 < triple_product RInst a b c -> 0 < triple_product RInst a b v ->
+  0 < triple_product RInst b c v -> 0 < triple_product RInst c a v ->
+  let P := isect a b c v in
+  let h := hR a b c v in
+  1 / 100000000 <= Rabs (half_excess_sine a b c) ->
+  1 / 100000000 <= Rabs (half_excess_sine a P c) ->
+  1 / 100000000 <= Rabs (half_excess_sine a b P) ->
+  1 / 1000000000000 <= Ratan.acos (vdot RInst b c) ->
+  1 / 1000000000000 <= Ratan.acos (vdot RInst a P) ->
+  1 / 1000 <= sqrt ((1 - vdot RInst a v) / 2) ->
+  1 / 1000 <= sqrt ((1 - vdot RInst a P) / 2) ->
+  1 - h <= 1 - 1 / 100000000000000 ->
+  h / areaR a b c * areaR a P c <= 1 - 1 / 100000000000000 ->
+  h / areaR a b c * areaR a b P <= 1 - 1 / 100000000000000 ->
+  exists fp, polyhedral_forward RInst v (a, b, c) ft = Some fp /\
+             polyhedral_inverse RInst fp ft (a, b, c) = Some v.
+Proof. exact polyhedral_roundtrip_main_branch. Qed.
+Print Assumptions C15_polyhedral_roundtrip_main_branch.
+
+(* what the forward map computes on the main branch, and additivity of the spherical excess along the arc bc *)
+Theorem C15_polyhedral_forward_main_branch :
+  forall (a b c v : vecR) (ft : triR),
+  unitv a -> unitv b -> unitv c -> unitv v ->
+  0 < vdot RInst a b -> 0 < vdot RInst b c -> 0 < vdot RInst c a ->
+  0 < triple_product RInst a b c -> 0 < triple_product RInst a b v ->
+  0 < triple_product RInst b c v -> 0 < triple_product RInst c a v -> vdot RInst a v < 1 ->
+  let P := isect a b c v in
+  let h := hR a b c v in
+  1 / 100000000 <= Rabs (half_excess_sine a b c) ->
+  1 / 100000000 <= Rabs (half_excess_sine a P c) ->
+  1 / 100000000 <= Rabs (half_excess_sine a b P) ->
+  polyhedral_forward RInst v (a, b, c) ft =
+    Some (barycentric_to_face RInst
+            (1 - h, h / areaR a b c * areaR a P c, h / areaR a b c * areaR a b P) ft) /\
+  areaR a b P + areaR a P c = areaR a b c /\ 0 < areaR a b c.
+Proof. exact polyhedral_forward_main_branch. Qed.
+Print Assumptions C15_polyhedral_forward_main_branch.
+
+(* the hypotheses of the round-trip theorem are jointly satisfiable: a concrete triangle and point *)
+Theorem C15_polyhedral_roundtrip_instance :
+  exists fp, polyhedral_forward RInst ex_v (ex_a, ex_b, ex_c) ex_ft = Some fp /\
+             polyhedral_inverse RInst fp ex_ft (ex_a, ex_b, ex_c) = Some ex_v.
+Proof. exact polyhedral_roundtrip_instance. Qed.
+Print Assumptions C15_polyhedral_roundtrip_instance.
 
 (* ---- Interval model soundness: the executable interval instance (used by the correspondence check) encloses the
    ideal-real instance about which the theorems of this file speak.  [encl i x] = the real x lies in the interval i;
